@@ -43,6 +43,9 @@ def o_mapping(inp):
     f = state_fail(-1, ["init"])
     if f:
         return (f, True, ())
+    # a deep copy taken now is an independent mapping: nothing done to `entry` may show in it
+    twin = copy.deepcopy(entry)
+    twin_snapshot = [(x.key, repr(x.value), x.start_line) for x in twin.fields]
     # every Field object ever stored keeps its content: a dict never alters a value object that a later
     # assignment replaces or that an earlier lookup handed out
     seen_fields = {id(x): (x, (x.key, repr(x.value), x.start_line)) for x in fields}
@@ -148,6 +151,8 @@ def o_mapping(inp):
         f = state_fail(step, op) or objects_fail(step, op)
         if f:
             return (f, True, sorted(cls))
+    if twin.fields is entry.fields or [(x.key, repr(x.value), x.start_line) for x in twin.fields] != twin_snapshot:
+        return (("deepcopy-not-independent", repr(twin.fields), repr(twin_snapshot)), True, sorted(cls))
     return (None, replaced > 0 and removed > 0, sorted(cls))
 
 
